@@ -884,7 +884,8 @@ Proof.
     + right; right. exists w. rewrite RL. auto.
   - intros u i w Hn. destruct (HH u i Hn) as (E & Hn' & _). rewrite E, RL. intros Hr.
     thr_cases w t; [apply noscan_vscan; auto|apply V7; auto].
-  - intros u. thr_cases u t; auto. eapply vlocal_ext2; eauto. rewrite Es. rewrite upd_other; auto. congruence.
+  - intros u. thr_cases u t; auto. apply (vlocal_ext2 s); auto.
+    rewrite Es. rewrite upd_other; auto; congruence.
   - intros u n. rewrite RL, En. apply V9.
   - intros u. rewrite En. thr_cases u t; [|apply V10]. intros X. rewrite Hhh; auto. apply V10. congruence.
 Qed.
@@ -932,7 +933,159 @@ Proof.
     destruct (HH u i Hn) as [(-> & -> & E)|[E Hn']]; rewrite E; intros Hr.
     + exfalso. apply (n_q_rl s Q n w Hq Hr).
     + thr_cases w t; [apply noscan_vscan; auto|apply V7; auto].
-  - intros u. thr_cases u t; auto.
+  - intros u. thr_cases u t; auto. exact (V8 u).
   - intros u m. rewrite RL. apply V9.
   - intros u. thr_cases u t; [|apply V10]. intros X. rewrite Hhh; auto. apply V10. congruence.
 Qed.
+
+Lemma head_succ s p : QInv s -> nprev s (qhead s) = p -> p <> 0 -> exists r2, qs s = qhead s :: p :: r2.
+Proof.
+  intros Q Hp Hnz. pose proof (q_ne s Q) as A1. pose proof (q_head s Q) as A2. pose proof (q_tail s Q) as A3.
+  destruct (qs s) as [|n0 rest] eqn:E; [tauto|]. cbn [hd] in A2. subst n0.
+  destruct rest as [|n1 r2].
+  - exfalso. cbn in A3. pose proof (q_last s Q). congruence.
+  - exists r2. f_equal. f_equal.
+    destruct (q_link s Q (qhead s) n1) as [X|[X _]]; [rewrite E; cbn; left; repeat split; auto; discriminate|congruence|congruence].
+Qed.
+
+Lemma start_props T : start_ok T -> noscan T /\ privp (pc T) = false /\ handp (pc T) = false.
+Proof. unfold start_ok, noscan. destruct (pc T); cbn; intros H; try tauto; auto. Qed.
+
+Lemma start_vlocal s t T : start_ok T -> vlocal s t T.
+Proof. unfold start_ok, vlocal. destruct (pc T); tauto. Qed.
+
+Definition q58 (p : pcT) : bool := match p with Q5 | Q6 | Q7 | Q8 => true | _ => false end.
+
+Lemma vlocal_q58 s u T : q58 (pc T) = true -> vlocal s u T -> vq4 s T /\ vq5 s T.
+Proof. unfold vlocal. destruct (pc T); cbn; try discriminate; tauto. Qed.
+
+(* safety of the gc list at the end of a scan (as HazardProofs.safe_gc) *)
+Lemma safe_gc s t u i :
+  RInv s -> VInv s -> pc (thr s t) = S4 -> rnext s (cur (thr s t)) = 0 ->
+  held (thr s u) i <> 0 ->
+  ~ In (held (thr s u) i) (scan_gc sort (snap (thr s t)) (rlist (thr s t))).
+Proof.
+  intros I V Hpc Hnx Hn Hin. apply gc_in in Hin. destruct Hin as [Hrl Hb].
+  pose proof (v_scan s V u i t Hn Hrl) as B6. unfold vscan in B6. rewrite Hpc in B6.
+  assert (LT := r_loc s I t). unfold rlocal, rlocalP in LT. rewrite Hpc in LT. destruct LT as [_ Hc].
+  destruct (from_next (rnext s) (recs s) _ (r_nodup s I) (r_link s I) (r_nz s I) Hc) as [[A B]|[A _]]; [|contradiction].
+  rewrite B in B6. cbn [tl In] in B6. destruct B6 as [[]|Hs].
+  assert (bsearch (sort (snap (thr s t))) (held (thr s u) i) = true).
+  { apply bsearch_correct; auto. eapply Permutation_in; [apply sort_perm|exact Hs]. }
+  congruence.
+Qed.
+
+Lemma vscan_push r0 rc T r i n :
+  ~ In r0 rc -> (match pc T with S2 => In (chead T) rc | S3 | S4 => In (cur T) rc | _ => True end) ->
+  vscan rc T r i n -> vscan (r0 :: rc) T r i n.
+Proof.
+  intros Hn Hc. unfold vscan. destruct (pc T); auto; rewrite from_cons_ne; auto; intros X; rewrite X in Hn; tauto.
+Qed.
+
+(* a write to the prev field of node x that is in no retired list, in no
+   popper's hand, and is not the head that a popper past Q4 still believes in *)
+Lemma vinv_nprev s t T' x v :
+  VInv s -> held T' = held (thr s t) -> joined T' = joined (thr s t) -> rlist T' = rlist (thr s t) ->
+  (privp (pc T') = true -> privp (pc (thr s t)) = true /\ nn T' = nn (thr s t)) ->
+  handp (pc T') = false -> handp (pc (thr s t)) = false -> noscan T' ->
+  vlocal s t T' -> q58 (pc T') = false ->
+  (forall u n, In n (rlist (thr s u)) -> n <> x) ->
+  (forall u, handp (pc (thr s u)) = true -> hh (thr s u) <> x) ->
+  (forall u, u <> t -> q58 (pc (thr s u)) = true -> qhead s = hh (thr s u) -> hh (thr s u) <> x) ->
+  VInv (set_thr (set_nprev s x v) t T').
+Proof.
+  intros [V1 V2 V3 V4 V5 V6 V7 V8 V9 V10] Eheld Ej Erl Hpriv Hh1 Hh2 Hns Hl Hq X1 X2 X3.
+  assert (HH : forall u, held (upd (thr s) t T' u) = held (thr s u)).
+  { intros u. thr_cases u t; auto. }
+  assert (RL : forall u, rlist (upd (thr s) t T' u) = rlist (thr s u)).
+  { intros u. thr_cases u t; auto. }
+  constructor; msimp.
+  - intros u i. rewrite HH. apply V1.
+  - intros u i. rewrite HH. apply V2.
+  - intros u i. rewrite HH. intros Hn. specialize (V3 u i Hn). thr_cases u t; congruence.
+  - intros u i. rewrite HH. apply V4.
+  - intros u i w. rewrite HH. intros Hn. thr_cases w t; [|apply V5; auto].
+    intros X. destruct (Hpriv X) as [Y ->]. apply V5; auto.
+  - intros u i. rewrite HH. intros Hn. unfold wherep; msimp.
+    destruct (V6 u i Hn) as [X|[[w [Y1 Y2]]|[w X]]].
+    + left. auto.
+    + right; left. exists w. thr_cases w t; [congruence|auto].
+    + right; right. exists w. rewrite RL. auto.
+  - intros u i w. rewrite HH, RL. intros Hn Hr. thr_cases w t; [apply noscan_vscan; auto|apply V7; auto].
+  - intros u. thr_cases u t.
+    + unfold vlocal, vq4, vq5 in *; msimp. destruct (pc T'); try discriminate; auto.
+    + assert (Lu := V8 u). unfold vlocal, vq4, vq5 in *; msimp.
+      assert (K : q58 (pc (thr s u)) = true -> qhead s = hh (thr s u) ->
+                  upd (nprev s) x v (hh (thr s u)) = nprev s (hh (thr s u))).
+      { intros A B. apply upd_other. apply X3; auto. }
+      destruct (pc (thr s u)); auto; cbn in K;
+        repeat match goal with H : _ /\ _ |- _ => destruct H end; repeat split; auto;
+        intros E; rewrite K; auto.
+  - intros u n. rewrite RL. intros Hr. rewrite upd_other; [apply (V9 u); auto|apply (X1 u); auto].
+  - intros u. thr_cases u t; [congruence|]. intros Y. rewrite upd_other; [apply V10; auto|apply X2; auto].
+Qed.
+
+Lemma vinv_step s t : RInv s -> QInv s -> VInv s -> VInv (fst (step sort s t)).
+Proof.
+  intros I Q V. pose proof V as [V1 V2 V3 V4 V5 V6 V7 V8 V9 V10].
+  pose proof I as [Ih Ind Inz Il Ij Iloc].
+  unfold step. remember (thr s t) as T eqn:HT.
+  assert (LT := Iloc t). rewrite <- HT in LT. unfold rlocal, rlocalP in LT.
+  assert (VT := V8 t). rewrite <- HT in VT. unfold vlocal in VT.
+  assert (JT : joined T = true <-> In (S t) (recs s)) by (rewrite HT; apply Ij).
+  Ltac vside T HT Hpc :=
+    try reflexivity; try (subst T; reflexivity);
+    try (rewrite <- ?HT; ifs_nat; msimp; rewrite ?Hpc; cbn [privp handp]; auto; try discriminate; try tauto; fail);
+    try (intros; apply noscan_vscan; unfold noscan; ifs_nat; msimp; auto; fail);
+    try (unfold vlocal; ifs_nat; msimp; exact Logic.I);
+    try (unfold noscan; ifs_nat; msimp; exact Logic.I);
+    try (intros ? ? ? ? _ X; exact X).
+  Ltac vloc s t V T HT Hpc := eapply (vinv_frame s _ t); try exact V; vside T HT Hpc.
+  Ltac vfin s t V T HT Hpc T0 :=
+    fin_tac; destruct Hfin as [[Fj [Frl Fh]] Fs]; destruct (start_props _ Fs) as (Fn & Fp & Fq);
+    eapply (vinv_frame s _ t); try exact V; try reflexivity;
+    try (rewrite <- ?HT; msimp; congruence);
+    try (intros; apply noscan_vscan; auto; fail);
+    try (apply start_vlocal; auto; fail);
+    try (intros ? ? ? ? _ X; exact X).
+  destruct (pc T) eqn:Hpc; cbn [fst].
+  - (* J1 *) vloc s t V T HT Hpc.
+  - (* J2 *) vloc s t V T HT Hpc.
+  - (* J3 *) vloc s t V T HT Hpc.
+  - (* J4 *) vloc s t V T HT Hpc.
+  - (* J5 *) vloc s t V T HT Hpc.
+  - (* J6 *) destruct (Nat.eqb_spec (hhead s) (chead T)) as [E|E]; cbn [fst]; [|vloc s t V T HT Hpc].
+    assert (NI : ~ In (S t) (recs s)) by (intros X; apply JT in X; destruct LT; congruence).
+    eapply (vinv_frame s _ t); try exact V; vside T HT Hpc.
+    msimp. intros u r i n Hu. apply vscan_push; auto.
+    assert (Lu := Iloc u). unfold rlocal, rlocalP in Lu. destruct (pc (thr s u)); tauto.
+  - (* J7 *) destruct (rnext s (S t) =? 0); cbn [fst]; [vfin s t V T HT Hpc T|vloc s t V T HT Hpc].
+  - (* J8 *) vloc s t V T HT Hpc.
+  - (* J9 *) destruct (rnext s (cur T) =? 0); cbn [fst]; [vfin s t V T HT Hpc T|vloc s t V T HT Hpc].
+  - admit.
+  - admit.
+  - (* P1 *) vloc s t V T HT Hpc.
+  - admit.
+  - admit.
+  - (* P4 *) vloc s t V T HT Hpc.
+  - admit.
+  - admit.
+  - admit.
+  - (* Q1 *) vloc s t V T HT Hpc.
+  - admit.
+  - admit.
+  - admit.
+  - admit.
+  - admit.
+  - admit.
+  - admit.
+  - admit.
+  - admit.
+  - admit.
+  - (* R1 *) destruct (rthr s (S t) <=? length (rlist T)); cbn [fst]; [vloc s t V T HT Hpc|vfin s t V T HT Hpc T].
+  - admit.
+  - admit.
+  - admit.
+  - admit.
+  - (* Fin *) exact V.
+Admitted.
